@@ -123,6 +123,15 @@ let () =
        | Some m, Some l' -> c6_cfm_str m ^ " " ^ hexbytes l'.c6l_data
        | _, _ -> "illformed")
     | _ -> "?args");
+  (* c6isodec <cfg 9> key kind num gen data -> "ok <method> <plaintext>" | none : the reference reader on one leaf of a file *)
+  register "c6isodec" (fun args -> match args with
+    | [v; r; kl; p; em; id; cf; stmf; strf; key; kind; num; gen; data] ->
+      let c = c6_cfg v r kl p em id cf stmf strf in
+      let l = c6_leaf kind num gen "-" data in
+      (match c06_leaf_method c l, c06_iso_decrypt_leaf c (unhexbytes key) l with
+       | Some m, Some d -> "ok " ^ c6_cfm_str m ^ " " ^ hexbytes d
+       | _, _ -> "none")
+    | _ -> "?args");
   (* c6open <rdict 16> id(~ = invalid) P:<hex> | H:<hex> *)
   register "c6open" (fun args ->
     let (rd, rest) = c6_take 16 args in
